@@ -435,6 +435,55 @@ func buildAlphabet(c *lib.Ctx) {
 	addObj("#(1.5:'a')", false, nil, [][2]pair{{p(numModel("dnum", big.NewRat(3, 2)), core.SuDnum{Dnum: dnum.FromStr("1.5")}), sa}})
 	addObj("#(true:'a')", false, nil, [][2]pair{{p(&mval{class: clBool, kind: "bool", b: true}, core.True), sa}})
 
+	if !c.Quick() {
+		// generated: strings over {a, b, NUL} up to length 2 in two representations
+		for _, x := range []string{"", "a", "b", "\x00"} {
+			for _, y := range []string{"a", "b", "\x00"} {
+				addStr(fmt.Sprintf("%q", x+y), x+y, "str", "concat")
+			}
+		}
+		for _, s := range []string{"3", "-3", "0.5", "1e15", "123456789012345.6", "-1e20", "1e-126", "9.999999999999999e126"} {
+			addDec(s)
+		}
+		addDate(1999, 12, 31, 23, 59, 59, 999, 0, 1, 255)
+		addDate(2000, 1, 1, 0, 0, 0, 0, 0, 1)
+		addDate(2000, 2, 29, 12, 0, 0, 0, 0)
+		// generated objects: list of length <= 2 over a pool, named subsets of
+		// size <= 2 in both insertion orders, as object and as record
+		pool := []pair{one("smi"), one("dnum"), two, sa, p(mkObj(false, nil, nil)), big64, bigdn}
+		nameds := [][2]pair{{sa, one("smi")}, {sa, two}, {sb, one("dnum")}, {three, sa}, {big64, sb}, {bigdn, sb}}
+		var lists [][]pair
+		lists = append(lists, nil)
+		for _, a := range pool {
+			lists = append(lists, []pair{a})
+			for _, b := range pool[:4] {
+				lists = append(lists, []pair{a, b})
+			}
+		}
+		var namedSets [][][2]pair
+		namedSets = append(namedSets, nil)
+		for i, a := range nameds {
+			namedSets = append(namedSets, [][2]pair{a})
+			for j, b := range nameds {
+				if i != j && a[0].m.key() != b[0].m.key() {
+					namedSets = append(namedSets, [][2]pair{a, b})
+				}
+			}
+		}
+		k := 0
+		for li, l := range lists {
+			for ni, ns := range namedSets {
+				// thin the product deterministically: every list with the
+				// first few named sets, every named set with the first lists
+				if li > 3 && ni > 3 && (li+ni)%5 != 0 {
+					continue
+				}
+				k++
+				addObj(fmt.Sprintf("gen%d", k), (li+ni)%4 == 3, l, ns)
+			}
+		}
+	}
+
 	// equivalence classes by model key
 	classes := map[string]int{}
 	for i := range alpha {
